@@ -107,6 +107,14 @@ def spreadParam (res : GoVal) : Option (List Prm) :=
   | .slice true true _ => some []      -- a nil []any (what Select returns for an empty list): no arguments
   | _ => none
 
+/-- the argument list a path or group argument contributes. A typed list that was never allocated (a nil `[]int`, `[]string`, ...)
+    contributes nothing when its type is one the code lists and is an error otherwise: the model's values do not record the element
+    type of a list without elements, so it declines these. -/
+def spreadOut (res : GoVal) : Sum Out (List Prm) :=
+  match normalizeValue res with
+  | .slice false true _ => .inl .unmodelled
+  | _ => match spreadParam res with | some l => .inr l | none => .inl .err
+
 def selectOn (recv : GoVal) (run : GoVal → Out) : Out :=
   match (RV.of recv).derefOnce with
   | .val (.slice _ _ xs) => selectList run xs []
@@ -205,10 +213,10 @@ def sParam (p : EParam) (cur orig : GoVal) : Sum Out (List Prm) :=
   | .str s => .inr [.str s]
   | .bool b => .inr [.bool b]
   | .path pp => match sPath pp cur orig with
-    | .ok res => (match spreadParam res with | some l => .inr l | none => .inl .err)
+    | .ok res => spreadOut res
     | o => .inl o
   | .logic l => match sLogic l cur orig with
-    | .ok res => (match spreadParam res with | some l => .inr l | none => .inl .err)
+    | .ok res => spreadOut res
     | o => .inl o
 termination_by structural p
 
